@@ -83,6 +83,33 @@ class Ctx:
         self.current_rule: str = "?"
         self.notes: list[str] = []
         self.stats: dict[str, int] = {}
+        self.covers: list[dict] = []
+
+    def cover(self, constructs: list[str], by: str, supersedes: list[str], bound: str, whole_rules: list[str] | None = None) -> None:
+        """declare that the behaviour of `constructs` was decided HOLDS by rule `by` (bounded abstract evaluation over `bound`): verdicts of the
+        structural rules in `supersedes` on those constructs that are not HOLDS - the form of the code is not one the structural rule knows -
+        are then recorded as HOLDS 'decided semantically' (structure first, semantics as the fallback for unrecognised forms).  Only called
+        when `by` found no deviation and left nothing undecided"""
+        # whole_rules: structural rules *all* of whose anchors are among `constructs` - their floor / extractor errors (reported at the rule
+        # itself, not at a construct) are superseded as well
+        self.covers.append({"constructs": set(constructs) | set(whole_rules or []), "by": by, "supersedes": set(supersedes), "bound": bound})
+
+    def apply_covers(self) -> int:
+        n = 0
+        for ob in self.obligations:
+            if ob.verdict == HOLDS:
+                continue
+            for c in self.covers:
+                if ob.rule in c["supersedes"] and ob.construct in c["constructs"]:
+                    ob.slot = {"structural_verdict": ob.verdict, "structural_slot": jsonable(ob.slot), "decided_by": c["by"], "bound": c["bound"]}
+                    ob.why = ("the structural rule does not recognise this form of the code; the behaviour of the construct was decided by bounded "
+                              "abstract evaluation instead (" + c["by"] + ")")
+                    ob.verdict = HOLDS
+                    n += 1
+                    break
+        if n:
+            self.notes.append(f"{n} structural verdict(s) on unrecognised forms superseded by a semantic rule that holds on its whole bound")
+        return n
 
     def _where(self, where: Any) -> tuple[str, str, int]:
         "(file, construct, line) of a FuncInfo/ClassInfo/(file, construct, line) tuple"
@@ -185,6 +212,7 @@ def finish(prop: str, ctx: Ctx, per_rule: dict, tier: str, seed: int, t_start: f
     evidence_dir = evidence_dir or os.path.join(VERIF_DIR, "evidence")
     os.makedirs(os.path.join(evidence_dir, "violations"), exist_ok=True)
     known = load_known_findings()
+    ctx.apply_covers()
     viols, errs, known_hits = [], [], []
     for ob in ctx.obligations:
         if ob.verdict == VIOLATION:
